@@ -1,9 +1,10 @@
 (* Properties_C07.v — C07: step-size control honours the parameters.
-   Proved here: the accept rule, for any policies and any history.  The controller formulas are
+   Proved here: the accept rule, for any policies and any history; no step start exceeds the remaining interval
+   and a retry is never larger than the attempt before it (exact arithmetic, any rejection history).  The controller formulas are
    the model's definitions (Rosenbrock.v: ros_iter, ros_solve), tied to the code exactly by the
    scripted-policy correspondence check; bounds on H are evaluated by the implementation oracle. *)
-From Model Require Import Base Dense Rosenbrock IntegratorProofs ErrorNorm ErrorNormProofs.
-From Coq Require Import List Permutation Ring.
+From Model Require Import Base Dense Rosenbrock IntegratorProofs ErrorNorm ErrorNormProofs RosScratchProofs NumInst RosTimeQ.
+From Coq Require Import List Permutation Ring QArith Qabs.
 Local Open Scope nat_scope.
 
 (* an attempt is accepted iff its error norm is below 1 or H is already below h_min; a NaN or
@@ -70,3 +71,98 @@ Theorem C07_no_step_after_max_number_of_steps :
     length (filter (fun e => match e with EvAttempt _ _ _ _ _ _ => true | _ => false end) a) <= p_max_steps p.
 Proof. exact ros_attempts_before_every_step. Qed.
 Print Assumptions C07_no_step_after_max_number_of_steps.
+
+(* no attempt exceeds the remaining interval, and within a step the sizes never grow: walking the trace of any Solve
+   (RosScratchProofs.sizes_ok), every step start EvStep t H has 0 <= t, 0 <= H <= time_step - t, and every attempt has
+   0 <= H <= the size of the latest step start or attempt before it - hence H <= time_step - t for every attempt of
+   the step started at t, after any number of rejections.  Exact arithmetic (any scalar structure embedding into
+   ordered Q); premises as for C06_rosenbrock_final_time_within_the_interval.  sizes_ok is not trivially true:
+   RosTimeQ.sizes_ok_discriminates. *)
+Theorem C07_no_attempt_exceeds_the_remaining_interval :
+  forall (N : Num) ltb leb nabs isnan isinf is_zero absorbed pow_inv ten delta_min
+         (V M F : Type) vaxpy vzero mzero add_diag forcing negjac in_place factor_sep solve_sep factor_ip solve_ip nerr
+         (p : params N) (phi : T N -> Q),
+    (forall a b, phi (nadd N a b) == phi a + phi b)%Q ->
+    (forall a b, phi (nsub N a b) == phi a - phi b)%Q ->
+    (forall a b, phi (nmul N a b) == phi a * phi b)%Q ->
+    (forall a b, ltb a b = true <-> (phi a < phi b)%Q) ->
+    (forall a b, leb a b = true <-> (phi a <= phi b)%Q) ->
+    (forall a, phi (nabs a) == Qabs (phi a))%Q ->
+    (0 <= phi (p_round_off p))%Q ->
+    (0 <= phi (p_factor_min p) /\ phi (p_factor_min p) <= 1)%Q ->
+    (0 <= phi (p_factor_max p))%Q ->
+    (0 <= phi (p_rej_dec p) /\ phi (p_rej_dec p) <= 1)%Q ->
+    (forall err, ltb err (n1 N) = false -> (phi (ndiv N (p_safety p) (pow_inv err (p_elo p))) <= 1)%Q) ->
+    forall fuel time_step (s : rstate V M F),
+      (phi (n0 N) == 0)%Q -> (0 <= phi time_step)%Q ->
+      sizes_ok N V M phi time_step 0%Q
+        (r_trace (ros_solve N ltb leb nabs isnan isinf is_zero absorbed pow_inv ten delta_min V M F vaxpy vzero mzero
+                            add_diag forcing negjac in_place factor_sep solve_sep factor_ip solve_ip nerr p fuel time_step s)).
+Proof. exact ros_attempt_sizes_within_the_interval. Qed.
+Print Assumptions C07_no_attempt_exceeds_the_remaining_interval.
+
+(* read off the walk: every step start lies inside the interval and its size is at most what remains of it *)
+Theorem C07_step_start_within_the_remaining_interval :
+  forall (N : Num) ltb leb nabs isnan isinf is_zero absorbed pow_inv ten delta_min
+         (V M F : Type) vaxpy vzero mzero add_diag forcing negjac in_place factor_sep solve_sep factor_ip solve_ip nerr
+         (p : params N) (phi : T N -> Q),
+    (forall a b, phi (nadd N a b) == phi a + phi b)%Q ->
+    (forall a b, phi (nsub N a b) == phi a - phi b)%Q ->
+    (forall a b, phi (nmul N a b) == phi a * phi b)%Q ->
+    (forall a b, ltb a b = true <-> (phi a < phi b)%Q) ->
+    (forall a b, leb a b = true <-> (phi a <= phi b)%Q) ->
+    (forall a, phi (nabs a) == Qabs (phi a))%Q ->
+    (0 <= phi (p_round_off p))%Q ->
+    (0 <= phi (p_factor_min p) /\ phi (p_factor_min p) <= 1)%Q ->
+    (0 <= phi (p_factor_max p))%Q ->
+    (0 <= phi (p_rej_dec p) /\ phi (p_rej_dec p) <= 1)%Q ->
+    (forall err, ltb err (n1 N) = false -> (phi (ndiv N (p_safety p) (pow_inv err (p_elo p))) <= 1)%Q) ->
+    forall fuel time_step (s : rstate V M F) a t H r,
+      (phi (n0 N) == 0)%Q -> (0 <= phi time_step)%Q ->
+      r_trace (ros_solve N ltb leb nabs isnan isinf is_zero absorbed pow_inv ten delta_min V M F vaxpy vzero mzero
+                         add_diag forcing negjac in_place factor_sep solve_sep factor_ip solve_ip nerr p fuel time_step s)
+        = a ++ EvStep t H :: r ->
+      (0 <= phi t /\ 0 <= phi H /\ phi H <= phi time_step - phi t)%Q.
+Proof. exact ros_step_start_within_the_remaining_interval. Qed.
+Print Assumptions C07_step_start_within_the_remaining_interval.
+
+(* ... and an attempt is never larger than the step start or attempt before it (mid: the events between the two,
+   none of which is a step start or an attempt), so the k-th retry of a step is at most the step's first size *)
+Theorem C07_attempt_never_larger_than_the_one_before :
+  forall (N : Num) ltb leb nabs isnan isinf is_zero absorbed pow_inv ten delta_min
+         (V M F : Type) vaxpy vzero mzero add_diag forcing negjac in_place factor_sep solve_sep factor_ip solve_ip nerr
+         (p : params N) (phi : T N -> Q),
+    (forall a b, phi (nadd N a b) == phi a + phi b)%Q ->
+    (forall a b, phi (nsub N a b) == phi a - phi b)%Q ->
+    (forall a b, phi (nmul N a b) == phi a * phi b)%Q ->
+    (forall a b, ltb a b = true <-> (phi a < phi b)%Q) ->
+    (forall a b, leb a b = true <-> (phi a <= phi b)%Q) ->
+    (forall a, phi (nabs a) == Qabs (phi a))%Q ->
+    (0 <= phi (p_round_off p))%Q ->
+    (0 <= phi (p_factor_min p) /\ phi (p_factor_min p) <= 1)%Q ->
+    (0 <= phi (p_factor_max p))%Q ->
+    (0 <= phi (p_rej_dec p) /\ phi (p_rej_dec p) <= 1)%Q ->
+    (forall err, ltb err (n1 N) = false -> (phi (ndiv N (p_safety p) (pow_inv err (p_elo p))) <= 1)%Q) ->
+    forall fuel time_step (s : rstate V M F) a e1 H mid H' e' ok' y yn ye r,
+      (phi (n0 N) == 0)%Q -> (0 <= phi time_step)%Q ->
+      r_trace (ros_solve N ltb leb nabs isnan isinf is_zero absorbed pow_inv ten delta_min V M F vaxpy vzero mzero
+                         add_diag forcing negjac in_place factor_sep solve_sep factor_ip solve_ip nerr p fuel time_step s)
+        = a ++ e1 :: mid ++ EvAttempt H' e' ok' y yn ye :: r ->
+      size_of N V M e1 = Some H -> Forall (plain N V M) mid ->
+      (0 <= phi H' /\ phi H' <= phi H)%Q.
+Proof. exact ros_attempt_never_larger_than_the_one_before. Qed.
+Print Assumptions C07_attempt_never_larger_than_the_one_before.
+
+(* ... instantiated at the exact rationals the correspondence check computes with *)
+Theorem C07_no_attempt_exceeds_the_remaining_interval_over_Q :
+  forall isnan isinf is_zero absorbed (pow_inv : Q -> Q -> Q) ten delta_min
+         (V M F : Type) vaxpy vzero mzero add_diag forcing negjac in_place factor_sep solve_sep factor_ip solve_ip nerr
+         (p : params NumQ),
+    (0 <= p_round_off p)%Q -> (0 <= p_factor_min p <= 1)%Q -> (0 <= p_factor_max p)%Q -> (0 <= p_rej_dec p <= 1)%Q ->
+    (forall err, qlt err 1 = false -> (Qred (p_safety p / pow_inv err (p_elo p)) <= 1)%Q) ->
+    forall fuel (time_step : Q) (s : rstate V M F), (0 <= time_step)%Q ->
+      sizes_ok NumQ V M (fun x => x) time_step 0%Q
+        (r_trace (ros_solve NumQ qlt qle Qabs isnan isinf is_zero absorbed pow_inv ten delta_min V M F vaxpy vzero mzero
+                            add_diag forcing negjac in_place factor_sep solve_sep factor_ip solve_ip nerr p fuel time_step s)).
+Proof. exact ros_attempt_sizes_within_the_interval_Q. Qed.
+Print Assumptions C07_no_attempt_exceeds_the_remaining_interval_over_Q.
